@@ -55,9 +55,31 @@ def run_bounded(bid, tier='quick', repo='/repo', extra_args=None):
             if os.path.isdir(d):
                 out |= set(os.path.join(d, x) for x in os.listdir(d))
         return out
+    needs_cli = bool((load_registry().get(bid) or {}).get('needs_cli'))
+    clip = os.path.join(work, 'nitrogql-cli')
     with open(os.path.join(tdir, '.vx-lock'), 'w') as lk:
         fcntl.flock(lk, fcntl.LOCK_EX)
         before = listing() if scratch_tree else set()
+        if needs_cli:
+            # the real CLI binary of the tree under check, built from that tree's own workspace manifest.  Cargo names the
+            # artifacts of workspace members by their workspace-RELATIVE path, so two copies of the repository collide in
+            # one target directory (measured: a scratch copy's binary was reused for /repo): every tree gets its own
+            # target directory here, and a scratch tree's is removed afterwards.
+            if not os.path.exists(os.path.join(repo, 'Cargo.toml')):
+                res.update(status='undecided', note='bounded check %s needs the workspace manifest %s/Cargo.toml to build nitrogql-cli' % (bid, repo), wall_s=round(time.time() - t0, 2))
+                return res
+            ctdir = os.path.join(BDIR, 'target-cli', 'repo' if not scratch_tree else '%s-%d' % (tag, os.getpid()))
+            cenv = dict(env, CARGO_TARGET_DIR=ctdir)
+            pc = subprocess.run(['cargo', 'build', '--offline', '--release', '-q', '-p', 'nitrogql-cli'], cwd=repo, env=cenv, capture_output=True, text=True, timeout=3000)
+            cbuilt = os.path.join(ctdir, 'release', 'nitrogql-cli')
+            ok_cli = pc.returncode == 0 and os.path.exists(cbuilt)
+            if ok_cli:
+                shutil.copy2(cbuilt, clip)
+            if scratch_tree:
+                shutil.rmtree(ctdir, ignore_errors=True)
+            if not ok_cli:
+                res.update(status='undecided', note='nitrogql-cli did not build from this tree: ' + pc.stderr[-1500:], wall_s=round(time.time() - t0, 2))
+                return res
         p = subprocess.run(['cargo', 'build', '--offline', '--release', '-q', '--bin', bid], cwd=work, env=env, capture_output=True, text=True, timeout=3000)
         built = os.path.join(tdir, 'release', bid)
         if p.returncode == 0 and os.path.exists(built):
@@ -81,7 +103,7 @@ def run_bounded(bid, tier='quick', repo='/repo', extra_args=None):
             shutil.rmtree(work, ignore_errors=True)
         return res
     try:
-        q = subprocess.run([binp, tier] + (extra_args or []), capture_output=True, text=True, timeout=3000)
+        q = subprocess.run([binp, tier] + (extra_args or []), capture_output=True, text=True, timeout=3000, env=dict(os.environ, VX_CLI=clip))
     except subprocess.TimeoutExpired:
         res.update(status='undecided', note='bounded harness timed out', wall_s=round(time.time() - t0, 2))
         return res
